@@ -71,7 +71,10 @@ Definition chrom_val (p : pipeline) (a b : list iv) (s : Z) : gval :=
   | PValues => GR (values_under (coverage s a) b)
   | PValuesMean0 => op_sum_n0 [GR (values_under (coverage s a) b)]
   | PValuesSum => op_rowsums [GR (values_under (coverage s a) b)]
-  | PValuesSum0 => op_colsums [GR (values_under (coverage s a) b)]
+  | PValuesSum0 => op_colsums_fixed [GR (values_under (coverage s a) b)]
+  | PValuesSum1 => op_rowsums [GR (values_under (coverage s a) b)]
+  | PValuesSumPinned => op_rowsums [GR (values_under (coverage s a) b)]
+  | PValuesSum0Pinned => op_colsums [GR (values_under (coverage s a) b)]
   end.
 
 Lemma extract_values t (b : list iv) :
@@ -194,9 +197,9 @@ Qed.
 
 (* reductions over the per-chromosome tracks *)
 Lemma reduce_sum (tracks : list (list Z)) : tracks <> [] ->
-  reduce1 red_add (map (fun t => GZ (sumZ t)) tracks) = Some (GZ (sumZ (concat tracks))).
+  reduce1 red_total (map (fun t => GZ (sumZ t)) tracks) = Some (GZ (sumZ (concat tracks))).
 Proof.
-  apply (reduce1_hom (fun t => GZ (sumZ t)) red_add). intros a b. rewrite sumZ_app. reflexivity.
+  apply (reduce1_hom (fun t => GZ (sumZ t)) red_total). intros a b. rewrite sumZ_app. reflexivity.
 Qed.
 Lemma reduce_hist k lo hi (tracks : list (list Z)) : tracks <> [] ->
   reduce1 red_hist (map (fun t => GL (spec_hist k lo hi t)) tracks) = Some (GL (spec_hist k lo hi (concat tracks))).
@@ -204,10 +207,10 @@ Proof.
   apply (reduce1_hom (fun t => GL (spec_hist k lo hi t)) red_hist). intros a b. rewrite spec_hist_app. reflexivity.
 Qed.
 Lemma reduce_hist_sum k lo hi (tracks : list (list Z)) : tracks <> [] ->
-  reduce1 (red_tuple [red_hist; red_add]) (map (fun t => GT [GL (spec_hist k lo hi t); GZ (sumZ t)]) tracks)
+  reduce1 (red_tuple [red_hist; red_total]) (map (fun t => GT [GL (spec_hist k lo hi t); GZ (sumZ t)]) tracks)
   = Some (GT [GL (spec_hist k lo hi (concat tracks)); GZ (sumZ (concat tracks))]).
 Proof.
-  apply (reduce1_hom (fun t => GT [GL (spec_hist k lo hi t); GZ (sumZ t)]) (red_tuple [red_hist; red_add])).
+  apply (reduce1_hom (fun t => GT [GL (spec_hist k lo hi t); GZ (sumZ t)]) (red_tuple [red_hist; red_total])).
   intros a b. rewrite spec_hist_app, sumZ_app. reflexivity.
 Qed.
 
@@ -381,6 +384,40 @@ Proof.
   cbn [map reduce1 concat]. f_equal. rewrite (op_colsums_nonempty r Hr1). apply (fold_colsums _ rs r Hrest Hr2).
 Qed.
 
+(* ---------- the reductions of np.sum after fix-3 ---------- *)
+Definition rowsums_of (rows : list (list Z)) : gval := op_rowsums [GR rows].
+Lemma rowsums_app_total a b : rowsums_of (a ++ b) = red_total (rowsums_of a) (rowsums_of b).
+Proof. unfold rowsums_of. cbn [op_rowsums red_total]. rewrite map_app. reflexivity. Qed.
+Lemma rowsums_app_rows a b : rowsums_of (a ++ b) = red_rows (rowsums_of a) (rowsums_of b).
+Proof. unfold rowsums_of. cbn [op_rowsums red_rows]. rewrite map_app. reflexivity. Qed.
+Lemma reduce_rowsums_total (rowss : list (list (list Z))) : rowss <> [] ->
+  reduce1 red_total (map rowsums_of rowss) = Some (rowsums_of (concat rowss)).
+Proof. apply (reduce1_hom rowsums_of red_total rowsums_app_total). Qed.
+Lemma reduce_rowsums_rows (rowss : list (list (list Z))) : rowss <> [] ->
+  reduce1 red_rows (map rowsums_of rowss) = Some (rowsums_of (concat rowss)).
+Proof. apply (reduce1_hom rowsums_of red_rows rowsums_app_rows). Qed.
+
+Definition colsums_of (rows : list (list Z)) : gval := op_colsums_fixed [GR rows].
+Lemma map_fst_padadd_z : forall x y : list (Z * Z), map fst (sn_padadd x y) = z_padadd (map fst x) (map fst y).
+Proof.
+  induction x as [|p x IH]; intros [|q y]; try reflexivity.
+  cbn [sn_padadd map z_padadd]. rewrite IH. reflexivity.
+Qed.
+Lemma colsums_app a b : colsums_of (a ++ b) = red_cols (colsums_of a) (colsums_of b).
+Proof.
+  unfold colsums_of. destruct a as [|ra a]; [destruct b; reflexivity|].
+  destruct b as [|rb b]; [rewrite app_nil_r; reflexivity|].
+  change ((ra :: a) ++ rb :: b) with (ra :: (a ++ rb :: b)).
+  cbn [op_colsums_fixed red_cols].
+  change (ra :: (a ++ rb :: b)) with ((ra :: a) ++ rb :: b).
+  rewrite spec_cols_app, map_fst_padadd_z. reflexivity.
+Qed.
+Lemma reduce_colsums_fixed (rowss : list (list (list Z))) : rowss <> [] ->
+  reduce1 red_cols (map colsums_of rowss) = Some (colsums_of (concat rowss)).
+Proof. apply (reduce1_hom colsums_of red_cols colsums_app). Qed.
+Lemma colsums_of_nonempty rows : rows <> [] -> colsums_of rows = GL (map fst (spec_cols rows)).
+Proof. destruct rows; [congruence|reflexivity]. Qed.
+
 (* ---------- finish: per-chromosome values -> the in-memory meaning ---------- *)
 Definition chrom_rows (da db : list (Z * iv)) (nm s : Z) : list (list Z) :=
   values_under (coverage s (ivs_of nm da)) (ivs_of nm db).
@@ -399,12 +436,13 @@ Lemma finish_spec : forall p order sizes da db mean_red,
   length order = length sizes -> (0 < length sizes)%nat ->
   (p = PValuesMean0 -> reduce1 mean_red (map rows_sn (all_rows order sizes da db))
                        = reduce1 red_mean_fixed (map rows_sn (all_rows order sizes da db))) ->
-  (p = PValuesSum -> length sizes = 1%nat) ->
-  (p = PValuesSum0 -> exists c, full_columns c (all_rows order sizes da db)) ->
+  (p = PValuesSum0 -> concat (all_rows order sizes da db) <> []) ->
+  (p = PValuesSumPinned -> length sizes = 1%nat) ->
+  (p = PValuesSum0Pinned -> exists c, full_columns c (all_rows order sizes da db)) ->
   finish p mean_red (map (fun '(nm, s) => chrom_val p (ivs_of nm da) (ivs_of nm db) s) (combine order sizes))
   = Some (spec_pipeline p order sizes da db).
 Proof.
-  intros p order sizes da db mean_red Hlen Hpos Hmean Hsum Hsum0.
+  intros p order sizes da db mean_red Hlen Hpos Hmean Hrows Hsum Hsum0.
   set (L := combine order sizes).
   assert (HL : L <> []).
   { unfold L. destruct order; destruct sizes; simpl in *; try lia; discriminate. }
@@ -438,7 +476,28 @@ Proof.
       by (unfold all_rows; rewrite map_map; apply map_ext; intros [nm s]; reflexivity).
     rewrite (Hmean eq_refl). rewrite reduce_mean_fixed; [reflexivity|].
     unfold all_rows. destruct (combine order sizes); [congruence|discriminate].
-  - (* np.sum of the values: one chromosome only *)
+  - (* np.sum of the values (after fix-3): the per-window sums follow each other *)
+    subst T L. rewrite (spec_vals order sizes da db).
+    replace (map (fun '(nm, s) => op_rowsums [GR (values_under (coverage s (ivs_of nm da)) (ivs_of nm db))]) (combine order sizes))
+      with (map rowsums_of (all_rows order sizes da db))
+      by (unfold all_rows; rewrite map_map; apply map_ext; intros [nm s]; reflexivity).
+    rewrite reduce_rowsums_total; [reflexivity|].
+    unfold all_rows. destruct (combine order sizes); [congruence|discriminate].
+  - (* column sums (after fix-3): added column by column, chromosomes without windows are neutral *)
+    subst T L. rewrite (spec_vals order sizes da db).
+    replace (map (fun '(nm, s) => op_colsums_fixed [GR (values_under (coverage s (ivs_of nm da)) (ivs_of nm db))]) (combine order sizes))
+      with (map colsums_of (all_rows order sizes da db))
+      by (unfold all_rows; rewrite map_map; apply map_ext; intros [nm s]; reflexivity).
+    rewrite reduce_colsums_fixed; [rewrite (colsums_of_nonempty _ (Hrows eq_refl)); reflexivity|].
+    unfold all_rows. destruct (combine order sizes); [congruence|discriminate].
+  - (* sum(axis=-1) (after fix-3): concatenation *)
+    subst T L. rewrite (spec_vals order sizes da db).
+    replace (map (fun '(nm, s) => op_rowsums [GR (values_under (coverage s (ivs_of nm da)) (ivs_of nm db))]) (combine order sizes))
+      with (map rowsums_of (all_rows order sizes da db))
+      by (unfold all_rows; rewrite map_map; apply map_ext; intros [nm s]; reflexivity).
+    rewrite reduce_rowsums_rows; [reflexivity|].
+    unfold all_rows. destruct (combine order sizes); [congruence|discriminate].
+  - (* history: np.sum of the values with operator.add: one chromosome only *)
     subst T L. rewrite (spec_vals order sizes da db). unfold all_rows.
     specialize (Hsum eq_refl).
     destruct order as [|o1 [|o2 order']]; destruct sizes as [|s1 [|s2 sizes']]; simpl in Hlen, Hsum; try lia.
@@ -462,6 +521,31 @@ Proof.
   apply (walk_runs order (concat cs) Hnd Hord).
 Qed.
 
+(* at least one window in genome-ordered data gives at least one row *)
+Lemma in_combine_exists {X Y} : forall (l1 : list X) (l2 : list Y) x, length l1 = length l2 -> In x l1 ->
+  exists y, In (x, y) (combine l1 l2).
+Proof.
+  induction l1 as [|a l1 IH]; intros [|b l2] x Hlen Hin; simpl in Hlen; try discriminate; [contradiction|].
+  destruct Hin as [->|Hin]; [exists b; left; reflexivity|].
+  destruct (IH l2 x ltac:(lia) Hin) as (y & Hy). exists y. right. exact Hy.
+Qed.
+Lemma all_rows_nonempty order sizes da (db : list (Z * iv)) :
+  length order = length sizes -> db <> [] -> ordered order db -> concat (all_rows order sizes da db) <> [].
+Proof.
+  intros Hlen Hne Hord. destruct db as [|e db']; [congruence|].
+  assert (Hin : In (fst e) order) by (apply (ordered_keys order (e :: db') Hord e); left; reflexivity).
+  destruct (in_combine_exists order sizes (fst e) Hlen Hin) as (s & Hs).
+  intros Hnil. unfold all_rows in Hnil.
+  assert (Hall : forall rows, In rows (map (fun '(nm, s0) => chrom_rows da (e :: db') nm s0) (combine order sizes)) -> rows = []).
+  { clear - Hnil. induction (map (fun '(nm, s0) => chrom_rows da (e :: db') nm s0) (combine order sizes)) as [|r l IH];
+      intros rows Hr; [contradiction|]. cbn [concat] in Hnil. apply app_eq_nil in Hnil. destruct Hnil as [H1 H2].
+    destruct Hr as [<-|Hr]; [exact H1|apply IH; assumption]. }
+  specialize (Hall (chrom_rows da (e :: db') (fst e) s)).
+  assert (Hc : chrom_rows da (e :: db') (fst e) s = []).
+  { apply Hall. apply in_map_iff. exists (fst e, s). split; [reflexivity|exact Hs]. }
+  unfold chrom_rows, values_under, ivs_of in Hc. cbn [filter] in Hc. rewrite Z.eqb_refl in Hc. discriminate.
+Qed.
+
 Theorem pipeline_spec_with : forall mean_red p order sizes (csa csb : list (list (Z * iv))),
   NoDup order -> length order = length sizes -> (0 < length sizes)%nat ->
   csa <> [] -> csb <> [] -> Forall (fun c => c <> []) csa -> Forall (fun c => c <> []) csb ->
@@ -469,8 +553,8 @@ Theorem pipeline_spec_with : forall mean_red p order sizes (csa csb : list (list
   (p = PValuesMean0 ->
      reduce1 mean_red (map rows_sn (all_rows order sizes (concat csa) (concat csb)))
      = reduce1 red_mean_fixed (map rows_sn (all_rows order sizes (concat csa) (concat csb)))) ->
-  (p = PValuesSum -> length sizes = 1%nat) ->
-  (p = PValuesSum0 -> exists c, full_columns c (all_rows order sizes (concat csa) (concat csb))) ->
+  (p = PValuesSumPinned -> length sizes = 1%nat) ->
+  (p = PValuesSum0Pinned -> exists c, full_columns c (all_rows order sizes (concat csa) (concat csb))) ->
   run_pipeline_with mean_red p order sizes csa csb
   = Some (spec_pipeline p order sizes (concat csa) (concat csb)).
 Proof.
@@ -479,15 +563,18 @@ Proof.
   rewrite (per_chromosome_ordered order csa Hnd Ha Hna Hoa), (per_chromosome_ordered order csb Hnd Hb Hnb Hob).
   rewrite (surjective_pairing (pipeline_graph p sizes _ _)).
   rewrite (graph_values p order sizes (concat csa) (concat csb) Hlen Hpos).
-  apply finish_spec; assumption.
+  apply finish_spec; try assumption.
+  intros _. apply all_rows_nonempty; [exact Hlen| |exact Hob].
+  apply concat_nonempty; assumption.
 Qed.
 
-(* what the reductions of the current code need beyond genome order.  Since the repair of mean_reduction (column-wise
-   padded addition, `_add_columns`) mean(axis=0) needs nothing. *)
+(* what the reductions need beyond genome order: NOTHING for every pipeline of the current code (mean_reduction was repaired by
+   fix-2, the reductions of np.sum by fix-3).  Only the two history constructors that keep the reductions of np.sum as they were
+   before fix-3 (reductions_map[np.sum] = operator.add) have a guard. *)
 Definition pipeline_guard (p : pipeline) (order sizes : list Z) (da db : list (Z * iv)) : Prop :=
   match p with
-  | PValuesSum => length sizes = 1%nat                                        (* operator.add on per-window sums *)
-  | PValuesSum0 => exists c, full_columns c (all_rows order sizes da db)      (* operator.add on column sums *)
+  | PValuesSumPinned => length sizes = 1%nat                                        (* operator.add on per-window sums *)
+  | PValuesSum0Pinned => exists c, full_columns c (all_rows order sizes da db)      (* operator.add on column sums *)
   | _ => True
   end.
 (* history: the mean_reduction of the pinned commit added the column sums with `+` *)
@@ -538,15 +625,15 @@ Proof.
   split; [vm_compute; reflexivity|vm_compute; discriminate].
 Qed.
 
-(* np.sum of the values under the windows: two chromosomes with one window each -> the per-window sums are ADDED
+(* HISTORY (the reductions before fix-3).  np.sum of the values under the windows: two chromosomes with one window each -> the per-window sums are ADDED
    (3 + 2) instead of listed; column sums: a chromosome without windows makes the streamed evaluation raise *)
 Lemma pipeline_sum_refuted :
   exists order sizes (csa csb : list (list (Z * iv))),
     NoDup order /\ length order = length sizes /\ ordered order (concat csa) /\ ordered order (concat csb)
-    /\ run_pipeline PValuesSum order sizes csa csb = Some (GL [4])
-    /\ spec_pipeline PValuesSum order sizes (concat csa) (concat csb) = GL [2; 2]
-    /\ run_pipeline PValuesSum0 [0; 1] [4; 4] [[(0, (0, 2)); (1, (1, 3))]] [[(0, (0, 2))]] = Some GErr
-    /\ spec_pipeline PValuesSum0 [0; 1] [4; 4] [(0, (0, 2)); (1, (1, 3))] [(0, (0, 2))] = GL [1; 1].
+    /\ run_pipeline PValuesSumPinned order sizes csa csb = Some (GL [4])
+    /\ spec_pipeline PValuesSumPinned order sizes (concat csa) (concat csb) = GL [2; 2]
+    /\ run_pipeline PValuesSum0Pinned [0; 1] [4; 4] [[(0, (0, 2)); (1, (1, 3))]] [[(0, (0, 2))]] = Some GErr
+    /\ spec_pipeline PValuesSum0Pinned [0; 1] [4; 4] [(0, (0, 2)); (1, (1, 3))] [(0, (0, 2))] = GL [1; 1].
 Proof.
   exists [0; 1], [4; 4], [[(0, (0, 2)); (1, (1, 3))]], [[(0, (0, 2))]; [(1, (1, 3))]].
   split; [repeat constructor; simpl; intuition lia|]. split; [reflexivity|].
@@ -555,4 +642,37 @@ Proof.
   split; [exists [(0, (0, 2))], [(1, (1, 3))]; repeat split; [repeat constructor|];
           exists [(1, (1, 3))], []; repeat split; repeat constructor|].
   repeat split; vm_compute; reflexivity.
+Qed.
+
+(* the reductions of np.sum after fix-3, without any guard: every genome, every chunking, chromosomes without windows,
+   windows of unequal lengths *)
+Theorem pipeline_sum_spec : forall p order sizes (csa csb : list (list (Z * iv))),
+  p = PValuesSum \/ p = PValuesSum0 \/ p = PValuesSum1 ->
+  NoDup order -> length order = length sizes -> (0 < length sizes)%nat ->
+  csa <> [] -> csb <> [] -> Forall (fun c => c <> []) csa -> Forall (fun c => c <> []) csb ->
+  ordered order (concat csa) -> ordered order (concat csb) ->
+  run_pipeline p order sizes csa csb = Some (spec_pipeline p order sizes (concat csa) (concat csb)).
+Proof.
+  intros p order sizes csa csb Hp Hnd Hlen Hpos Ha Hb Hna Hnb Hoa Hob.
+  apply pipeline_spec_current; auto. destruct Hp as [ -> | [ -> | -> ] ]; exact I.
+Qed.
+
+(* the same genomes on which the old reductions failed (pipeline_sum_refuted) *)
+Lemma pipeline_sum_fixed_witness :
+  run_pipeline PValuesSum [0; 1] [4; 4] [[(0, (0, 2)); (1, (1, 3))]] [[(0, (0, 2))]; [(1, (1, 3))]] = Some (GL [2; 2])
+  /\ run_pipeline PValuesSum1 [0; 1] [4; 4] [[(0, (0, 2)); (1, (1, 3))]] [[(0, (0, 2))]; [(1, (1, 3))]] = Some (GL [2; 2])
+  /\ run_pipeline PValuesSum0 [0; 1] [4; 4] [[(0, (0, 2)); (1, (1, 3))]] [[(0, (0, 2))]] = Some (GL [1; 1])
+  /\ run_pipeline PValuesSum0 [0; 1] [4; 4] [[(0, (0, 2)); (1, (1, 3))]] [[(1, (0, 3))]] = Some (GL [0; 1; 1])
+  /\ run_pipeline PValuesSum0 [0; 1] [4; 4] [[(0, (0, 2)); (1, (1, 3))]] [[(0, (0, 1))]; [(1, (1, 4))]] = Some (GL [2; 1; 0]).
+Proof. repeat split; vm_compute; reflexivity. Qed.
+
+Lemma sum_reductions_chunked : forall rowss : list (list (list Z)), rowss <> [] ->
+  reduce1 red_total (map (fun rows => op_rowsums [GR rows]) rowss) = Some (GL (map sumZ (concat rowss)))
+  /\ reduce1 red_rows (map (fun rows => op_rowsums [GR rows]) rowss) = Some (GL (map sumZ (concat rowss)))
+  /\ (concat rowss <> [] ->
+      reduce1 red_cols (map (fun rows => op_colsums_fixed [GR rows]) rowss) = Some (GL (map fst (spec_cols (concat rowss))))).
+Proof.
+  intros rowss Hne. split; [exact (reduce_rowsums_total rowss Hne)|]. split; [exact (reduce_rowsums_rows rowss Hne)|].
+  intros Hc. change (map (fun rows => op_colsums_fixed [GR rows]) rowss) with (map colsums_of rowss).
+  rewrite (reduce_colsums_fixed rowss Hne), (colsums_of_nonempty _ Hc). reflexivity.
 Qed.
